@@ -41,7 +41,7 @@ MC_MOD2 = '---- MODULE MC ----\nEXTENDS Shm\nMC_Size == [a |-> 1, b |-> 2]\n====
 
 def configs(quick: bool) -> list[dict]:
     """Model-checking runs: (name, constants, which invariants (U = outside the recorded known patterns))."""
-    U = [i + "U" for i in ALL]
+    U = [i + "U" for i in ALL] + ["ExitLeavesNoSegment"]
     runs = [
         {"name": "base", "c": consts(MaxClock="4" if quick else "6"), "inv": U, "props": ["DelayedPurgeTakesEffect"]},
         {"name": "fail", "c": consts(AllowFail="TRUE", MaxClock="4" if quick else "5"), "inv": U, "props": []},
@@ -73,7 +73,7 @@ def _mc(scratch: Path, run: dict, workers: int) -> dict:
     cfg = tlc.cfg_text(spec=run.get("spec", "Spec"), constants=run["c"], invariants=["TypeOK"] + run["inv"],
                        properties=run.get("props") or None, view=None if run.get("spec") == "FairSpec" else "view")
     d = tlc.stage(scratch, "mc_" + run["name"], ["Shm"], {"MC.tla": run.get("mod", MC_MOD), "MC.cfg": cfg})
-    r = tlc.check(d, "MC", workers=workers, coverage=True, timeout=1500, light=False, heap="8g")
+    r = tlc.check(d, "MC", workers=workers, coverage=True, timeout=1500, light=False, heap="8g", deadlock=False)
     tlc.require_clean(r, "Shm model checking " + run["name"])
     trace = tlc.parse_error_trace(r.out) if r.violated else []
     return {"name": run["name"], "generated": r.generated, "distinct": r.distinct, "depth": r.depth,
@@ -86,7 +86,7 @@ def _simulate(scratch: Path, name: str, c: dict, num: int, depth: int, seed: int
     d = tlc.stage(scratch, "sim_" + name, ["Shm"], {"MC.tla": mod, "MC.cfg": cfg})
     out = d / "b"
     out.mkdir(exist_ok=True)
-    r = tlc.check(d, "MC", workers=1, timeout=900, simulate=f"file={out}/b,num={num}", depth=depth, seed=seed)
+    r = tlc.check(d, "MC", workers=1, timeout=900, simulate=f"file={out}/b,num={num}", depth=depth, seed=seed, deadlock=False)
     if "Simulation using seed" not in r.out and "traces generated" not in r.out:
         raise MachineryError(f"TLC simulation failed:\n{r.out[-2000:]}")
     return sorted(out.glob("b_*"))
@@ -290,7 +290,7 @@ def _strip(st: dict) -> dict:
 
 def report(ctx: Ctx, pid: str) -> None:
     res = run_engine(ctx)
-    mine = set(C08_INV if pid == "C08" else C09_INV)
+    mine = set(C08_INV if pid == "C08" else C09_INV if pid == "C09" else [])
     main_runs = [m for m in res["mc"] if not m.get("finding")]
     ctx.coverage.update({
         "states": sum(m["distinct"] for m in main_runs), "transitions": sum(m["generated"] for m in main_runs),
@@ -330,6 +330,8 @@ def report(ctx: Ctx, pid: str) -> None:
             # attribution: an early grant or a pure free_space difference speaks about C08 (accounting/admission);
             # any other deviation of the status machine, readers, locks or bytes speaks about C09
             props = {"C08"} if (early or fields == {"free"}) else {"C09"}
+            if mm["action"][0] == "AtExit":
+                props = {"C05"}          # teardown: "leave no shared-memory segments behind"
             if pid in props:
                 act = mm["action"][0]
                 ctx.violate(f"conformance:{act}:" + "+".join(sorted(fields)),
@@ -344,7 +346,7 @@ def report(ctx: Ctx, pid: str) -> None:
                             {"behaviour_actions": r["actions"][: ov["step"]], "sizes": r["sizes"], "cap": r["cap"]},
                             clause="+".join(names))
     # 3. recorded known findings: still reachable in the model AND reproduced on the real code?
-    for k in res["known"]:
+    for k in (res["known"] if pid in ("C08", "C09") else []):
         invs = [v for v in k["violated"] if PROP_OF_INV.get(v) == pid]
         if invs and k["reached"] and k["confirmed_on_code"]:
             ctx.violate(k["finding"], f"{k['finding']}: {invs} violated; TLC counterexample reproduced step by step on the real Manager",
